@@ -265,6 +265,13 @@ def lean_stage(ctx, mod):
         # obligations of the form `example : P Generated.x := by decide` live in the property
         # module; they are discharged iff the build succeeded.
         ctx.obligation(name, "generated-skeleton", build_ok, "" if build_ok else _first_error(build_log))
+    for name, module in getattr(mod, "SKELETON_TARGETS", {}).items():
+        # skeleton obligations kept in modules of their own: built separately, so that a source change
+        # that breaks one is attributed to it and not to the property theorems
+        with _Lock():
+            r2 = _run(["lake", "build", module], LEAN, 900)
+        ok2 = r2.returncode == 0
+        ctx.obligation(name, "generated-skeleton", ok2, "" if ok2 else _first_error((r2.stdout + r2.stderr)[-4000:]))
     ctx.extra["axioms"] = axioms
     return build_ok
 
